@@ -572,10 +572,9 @@ func InlineClash(g *Grammar) bool {
 	c := g.Clone()
 	for pass := 0; pass < len(c.Rules)+1; pass++ {
 		leaf := map[string]*Rule{}
-		for i, r := range c.Rules {
-			if i == 0 {
-				continue // the entry rule is never inlined
-			}
+		for _, r := range c.Rules {
+			// (the first rule and protected entrypoints are inlined into their hosts like any other rule
+			// that references no rule - they are only never removed)
 			isLeaf := true
 			Walk(r.Expr, func(e *Expr) {
 				if e.Kind == RuleRef {
